@@ -245,7 +245,8 @@ func randomHistory(c *lib.Ctx, r *rand.Rand, db histDB, steps int) []Event {
 		x := r.Intn(100)
 		switch {
 		case w.cur == nil || x < 8 || (dirty && x < 75):
-			emit(Event{A: "NewCursor", P: vPrefixes[r.Intn(len(vPrefixes))], D: r.Intn(2) == 0})
+			// after a watchdog fired on a de-duplicating cursor only plain cursors are made (no pile-up of stuck moves)
+			emit(Event{A: "NewCursor", P: vPrefixes[r.Intn(len(vPrefixes))], D: r.Intn(2) == 0 && !hung.Load()})
 			dirty = false
 		case x < 50:
 			// runs of Prev / Next so that walks reach both ends and turn around
@@ -296,7 +297,8 @@ func probes(c *lib.Ctx, scratch string) ([][]Event, error) {
 		st.Close()
 		c.AddEvals(len(sc))
 		if err == errHang {
-			return nil, lib.Infra("a cursor move of the real code did not return within 20s in probe %d", i)
+			hung.Store(true) // reported as a machinery problem at the end of the run; never a verdict
+			continue
 		}
 		if err != nil {
 			c.Reject("walk-error:probe", err.Error(), sc)
